@@ -29,7 +29,12 @@
 #include <string.h>
 
 #define MGR_DBG1(a) lrtr_dbg("RTR_MGR: " a)
+#if defined(RTRLIB_VERIF) && defined(RTRLIB_VERIF_PDU_STORE_INCREMENT)
+/* verification hook: small increment so that the store regrowth path runs within small bounds */
+#define TEMPORARY_PDU_STORE_INCREMENT_VALUE RTRLIB_VERIF_PDU_STORE_INCREMENT
+#else
 #define TEMPORARY_PDU_STORE_INCREMENT_VALUE 100
+#endif
 #define MAX_SUPPORTED_PDU_TYPE 10
 
 enum pdu_error_type {
